@@ -261,14 +261,14 @@ PROPS = {
                  "Second opinion by R: component_truncate, bind_truncation_split, assert_canonical_truncation per width (all widths in the thorough tier) and the range gadget instances. "
                  "SEMANTIC LEMMAS (Verus, specs/verus/truncate_lemmas.rs), for every 1 <= N <= 254 over canonical wire values: soundness - rows satisfied ==> low == x mod 2^N and "
                  "high == x div 2^N whatever the prover puts on the internal wires (high <= r_high from the diff range check, is_top == [high == r_high] by the is-zero gadget and R prime, "
-                 "low <= r_low from the guard range check, hence 2^N high + low <= r - 1 as integers); completeness - the honest assignment satisfies the rows for every canonical x.",
+                 "low <= r_low from the guard range check, hence 2^N high + low <= r - 1 as integers); completeness - the honest assignment satisfies the rows for every canonical x. Bit decomposition, 1 <= N <= 254: satisfied rows (N boolean wires, running sum, closing equality) force x < 2^N and the bit wires to be THE binary digits of x (uniqueness), and the digits of every x < 2^N satisfy them.",
         "technique": "contract-based deductive verification: Verus on the real functions annotated in place (overlay) + Verus lemmas over the emitted rows",
         "level_note": "component_decomposition is decided per instance N (listed), not for all N: the fold over a const-generic array is unrolled "
-                      "by the trace checker. The lemmas take the range-check rows through the C09 interval lemma and the arithmetic rows through the C08 row lemmas (stated as relations on canonical values). NOT covered: the decomposition semantic lemma.",
+                      "by the trace checker. The lemmas take the range-check rows through the C09 interval lemma and the arithmetic rows through the C08 row lemmas (stated as relations on canonical values). Widths 255 / 256 of the decomposition (documented: no < r guard) carry no lemma.",
         "design_ref": "DESIGN.md §4 C11",
         "assumptions": A_VERUS + ["CANON model", "BlsScalar::{to_bits, pow_of_2, invert} contracts", "cut_le_bits"],
         "trusted": T_VERUS,
-        "not_covered": ["component_decomposition for N outside {1,2,8,252,256}", "semantic lemma for decomposition"],
+        "not_covered": ["component_decomposition LAYOUT for N outside {1,2,8,252,256}"],
     },
     "C12": {
         "v_units": ["composer_bits_select.py"],      # component_select / select_one / select_zero / boolean: callees of component_select_point and select_identity
